@@ -113,7 +113,10 @@ def _witness_string(w):
 def _family(rng, n_random=400):
     alpha = 'ijk'
     out = ['ij...,j...->i...', 'hij...,hj...->hi...', 'ikj,kj->ki', 'imn,in->im', 'ij,j->i', '...ij,...j->...i',
-           'i...j,j...->i...', 'ji,j->i', 'kij,kj->ki', 'ij,ij->i', 'ij,j->ij', 'ijk,jk->i', 'ij,k->i']
+           'i...j,j...->i...', 'ji,j->i', 'kij,kj->ki', 'ij,ij->i', 'ij,j->ij', 'ijk,jk->i', 'ij,k->i',
+           # the ellipsis written on different sides of the input and of the output term: must be refused or exact
+           'ij...,...j->i...', 'ij...,j...->...i', '...ij,j...->...i', 'i...j,...j->i...', '...ij,...j->i...',
+           'iji,j->i', 'i...ji,j...->i...']
     terms = [''.join(p) for n in range(0, 4) for p in itertools.product(alpha, repeat=n)]
     for _ in range(n_random):
         l, r, o = (terms[int(rng.integers(len(terms)))] for _ in range(3))
@@ -144,10 +147,21 @@ def subscripts(w, seed, spec, exclude_repeated=True):
             special = (set(ll) & set(rl) - set(ol)) | (set(ll) & set(ol) - set(rl))
             if any(ll.count(ch) > 1 for ch in special):
                 continue
-        for ell in ((), (2,)):
+        for ell in ((), (2,), ('same',)):
             if '...' not in s and ell:
                 continue
-            m = check_string(s, rng, ell)
+            if ell == ('same',):
+                # every label and the broadcast axis of one common size: shape errors cannot mask a wrong relabelling
+                saved = dict(SIZES)
+                for ch in 'hijkmn':
+                    SIZES[ch] = 3
+                try:
+                    m = check_string(s, rng, (3,))
+                finally:
+                    SIZES.clear()
+                    SIZES.update(saved)
+            else:
+                m = check_string(s, rng, ell)
             if m:
                 fails.append(m)
                 break
